@@ -48,6 +48,7 @@ partial def parseCTerm : Sexp → Option CTerm
   | .list [.atom "delay", th, b] => CTerm.delay <$> parseScript th <*> parseCTerm b
   | .list [.atom "combine", a, b] => CTerm.combine <$> parseCTerm a <*> parseCTerm b
   | .list [.atom "loop", c, p, b] => CTerm.loop <$> parseCond c <*> parsePost p <*> parseCTerm b
+  | .list [.atom "twice", a] => CTerm.twice <$> parseCTerm a
   | .list [.atom "ite", c, a, b] => do
       match ← parseCond c with
       | some cc => CTerm.ite cc <$> parseCTerm a <*> parseCTerm b
